@@ -92,8 +92,6 @@ class StmtMixin:
             t, f, exact = self.split(s.test, st)
             if f is not None:
                 self.raises.append({'node': s, 'fn': self.chain()})
-            if t is not None and not exact:
-                t.imprecise = True
             return t
         if isinstance(s, ast.If):
             return self.exec_if(s, st)
@@ -146,31 +144,19 @@ class StmtMixin:
     def exec_if(self, s, st):
         t, f, exact = self.split(s.test, st)
         outs = []
-        died = False
         if t is not None:
             r = self.exec_block(s.body, t)
             if r is not None:
                 outs.append(r)
-            else:
-                died = True
         if f is not None:
             r = self.exec_block(s.orelse, f) if s.orelse else f
             if r is not None:
                 outs.append(r)
-            else:
-                died = True
         if not outs:
             return None
         if len(outs) == 1:
-            if not exact and died:
-                # a path ended under a condition the domain cannot attribute to operand values: the survivors are
-                # an over-approximation
-                outs[0].imprecise = True
             return outs[0]
-        j = self.join(outs[0], outs[1])
-        if not exact and any(outs[0].cell_key(src) != outs[1].cell_key(src) for src in j.cells):
-            j.imprecise = True
-        return j
+        return self.join(outs[0], outs[1])
 
     # -- try ---------------------------------------------------------------------------------------------------------
     def exec_try(self, s, st):
@@ -309,7 +295,10 @@ class StmtMixin:
             other = 'str' if kind == 'int' else 'int'
             known_not = ('not' + kind, v.name) in st.facts
             known = (kind, v.name) in st.facts
-            t, f = st, st.clone()
+            if known_not or known:
+                t, f = st, st.clone()
+            else:
+                t, f = self.fork(st)
             t.facts = t.facts | {(kind, v.name), ('not' + other, v.name)}
             f.facts = f.facts | {(other, v.name), ('not' + kind, v.name)}
             if known_not:
@@ -376,7 +365,8 @@ class StmtMixin:
             if key in table:
                 return st, None, True
             if mode == 'extended':
-                return st, st.clone(), False
+                t, f = self.fork(st)
+                return t, f, False
             return None, st, True
         if isinstance(key, Param):
             src = self.reg_source(tname, key, st)
@@ -392,7 +382,7 @@ class StmtMixin:
         if isinstance(key, Opaque):
             if ('in', tname, key.desc) in st.facts:
                 return st, None, True
-            t, f = st, st.clone()
+            t, f = self.fork(st)
             t.facts = t.facts | {('in', tname, key.desc)}
             return t, f, False
         if isinstance(key, View):
